@@ -469,6 +469,14 @@ class Canon:
                 # `v.extend_from_slice(&x.to_be_bytes())`: one element in the sequence (rules that want the single bytes
                 # use Append.elem, the array of the n byte expressions)
                 el = self.c(a.orig)
+                o_ = strip(a.orig)
+                bt_ = be_call_type(o_)
+                if bt_ and bt_[0] == 'to' and o_.args and not a.in_loop:
+                    from .prov import const_int as _ci
+                    cv_ = _ci(o_.args[0])
+                    if cv_ is not None and o_.name and 'to_be_bytes' in o_.name:
+                        # the big-endian bytes of a constant are a literal byte string
+                        el = 'bytes:' + (cv_ % (1 << (8 * bt_[2]))).to_bytes(bt_[2], 'big').hex()
                 out.append('LOOP(bytes:%s)' % el if a.in_loop else el)
                 continue
             el = self.c(a.elem) if a.elem is not None else '?'
